@@ -63,6 +63,12 @@ type Store struct {
 	TruncateToHints bool
 	// ShareLabels hands out the very same label slices on every call (C17).
 	ShareLabels bool
+	// NoTrim disables the trimming of samples to the querier's [mint, maxt], which a
+	// real TSDB querier performs and which is on by default.
+	NoTrim bool
+	// HonorCtx makes every error-capable callback fail with the context's error once
+	// the context is cancelled (remote-read style storages do; a TSDB mostly does not).
+	HonorCtx bool
 
 	Faults []Fault
 	// Cancel is invoked by a "cancel" fault.
@@ -114,6 +120,12 @@ const (
 func (s *Store) tick(ctx context.Context, kind, sel string, series int) error {
 	if s.Hook != nil {
 		s.Hook()
+	}
+	if s.HonorCtx && ctx != nil && ctx.Err() != nil {
+		switch kind {
+		case "querier", "select", "set-next", "set-err", "iterator", "seek", "next":
+			return ctx.Err()
+		}
 	}
 	if len(s.Faults) == 0 && !s.Record {
 		return nil
@@ -249,8 +261,16 @@ func (q *querier) Select(sortSeries bool, hints *storage.SelectHints, ms ...*lab
 		return set
 	}
 	lo, hi := int64(-1<<62), int64(1<<62)
+	if !s.NoTrim {
+		lo, hi = q.mint, q.maxt
+	}
 	if s.TruncateToHints && hints != nil {
-		lo, hi = hints.Start, hints.End
+		if hints.Start > lo {
+			lo = hints.Start
+		}
+		if hints.End < hi {
+			hi = hints.End
+		}
 	}
 	for i := range s.Series {
 		ser := &s.Series[i]
